@@ -1077,11 +1077,34 @@ class Evaluator:
                 target = path
         elif tr is not None and r is not None and r["path"] in self.U.body and (r["path"] + "!") in self.inline:
             target = r["path"]
+        pushed = False
+        if target is None and tr is not None and tr not in QT and tr in getattr(self.U, "trait_items", {}) and not tr.startswith(("core::", "alloc::", "std::")):
+            # a private helper trait of the analysed crates (not one of the library's own four traits, whose methods
+            # the rules keep symbolic): look through it.  A default method is entered with the receiver's concrete
+            # type remembered, so that the required methods it calls on `Self` resolve through the impl table.
+            ctxs = getattr(self, "self_ctx", [])
+            if r is not None and r["path"] in self.U.body:
+                target = r["path"]
+                if f.get("args"):
+                    self.self_ctx = ctxs + [(tr, ty_key(f["args"][0]))]
+                    pushed = True
+            elif ctxs and ctxs[-1][0] == tr:
+                for imp in self.U.all_impls(tr):
+                    if ty_key(imp["self_ty"]) == ctxs[-1][1]:
+                        it = self.U.impl_item(imp, name)
+                        if it is not None and it["path"] in self.U.body:
+                            target = it["path"]
         if target is not None and target in self.U.body and depth < self.max_depth:
             callee = self.U.body[target]
-            for (g2, kind, t) in self.summarize(callee, args, depth + 1, g):
-                yield (g2, kind, t, env)
+            try:
+                for (g2, kind, t) in self.summarize(callee, args, depth + 1, g):
+                    yield (g2, kind, t, env)
+            finally:
+                if pushed:
+                    self.self_ctx = self.self_ctx[:-1]
             return
+        if pushed:
+            self.self_ctx = self.self_ctx[:-1]
         yield (g, "val", ("app", self.fname(f), self.tag(f), tuple(args)), env)
 
     def is_formatter(self, a, body):
